@@ -222,3 +222,93 @@ func trailingBytes(c *vf.Ctx, V [][16]byte) {
 		}
 	}
 }
+
+// refusedSetters: a field assignment that REPORTS AN ERROR is not an assignment — after
+// [SetNodeID(valid A); SetNodeID(slice of a wrong length) -> error] formatting then parsing must still
+// return A (binary and text), for every wrong length 0..5, 7, 8, 16 and two nodes A. An over-long
+// slice that is accepted without error is outside "assignments within the field widths": not judged.
+func refusedSetters(c *vf.Ctx) {
+	type obj struct {
+		name string
+		mk   func() (set func([]byte) error, node func() []byte, viaBinary func() ([]byte, error), viaText func() ([]byte, error))
+	}
+	objs := []obj{
+		{"uuid_v1.UUIDv1", func() (func([]byte) error, func() []byte, func() ([]byte, error), func() ([]byte, error)) {
+			u := &uuid_v1.UUIDv1{}
+			return u.SetNodeID, u.GetNodeID, func() ([]byte, error) {
+					m, err := u.Marshal()
+					if err != nil {
+						return nil, err
+					}
+					var p uuid_v1.UUIDv1
+					if _, err := p.Unmarshal(m); err != nil {
+						return nil, err
+					}
+					return p.GetNodeID(), nil
+				}, func() ([]byte, error) {
+					var p uuid_v1.UUIDv1
+					if err := p.FromString(u.String()); err != nil {
+						return nil, err
+					}
+					return p.GetNodeID(), nil
+				}
+		}},
+		{"uuid_v2.UUIDv2", func() (func([]byte) error, func() []byte, func() ([]byte, error), func() ([]byte, error)) {
+			u := &uuid_v2.UUIDv2{}
+			return u.SetNodeID, u.GetNodeID, func() ([]byte, error) {
+					m, err := u.Marshal()
+					if err != nil {
+						return nil, err
+					}
+					var p uuid_v2.UUIDv2
+					if _, err := p.Unmarshal(m); err != nil {
+						return nil, err
+					}
+					return p.GetNodeID(), nil
+				}, func() ([]byte, error) {
+					var p uuid_v2.UUIDv2
+					if err := p.FromString(u.String()); err != nil {
+						return nil, err
+					}
+					return p.GetNodeID(), nil
+				}
+		}},
+	}
+	nodes := [][]byte{{0x01, 0x02, 0x03, 0x04, 0x05, 0x06}, {0xff, 0xff, 0xff, 0xff, 0xff, 0xff}}
+	for _, o := range objs {
+		for _, A := range nodes {
+			for _, n := range []int{0, 1, 2, 3, 4, 5, 7, 8, 16} {
+				bad := bytes.Repeat([]byte{0xEE}, n)
+				c.Case([]byte("refused-setter"), []byte(o.name), A, []byte{byte(n)})
+				set, node, viaB, viaT := o.mk()
+				var e1, e2, eb, et error
+				var nb, nt, direct []byte
+				pan, msg, where := vf.Try(func() {
+					e1 = set(A)
+					e2 = set(bad)
+					direct = append([]byte(nil), node()...)
+					nb, eb = viaB()
+					nt, et = viaT()
+				})
+				key := "C13/" + o.name + "/SetNodeID/refused-assignment-leaves-the-node-as-assigned"
+				if pan {
+					c.Check(key, false, func() string {
+						return fmt.Sprintf("%s: SetNodeID(%x); SetNodeID(%d bytes) panicked: %s at %s", o.name, A, n, msg, where)
+					})
+					continue
+				}
+				if e1 != nil {
+					c.Check("C13/"+o.name+"/SetNodeID/accepts-six-bytes", false, func() string { return fmt.Sprintf("%s.SetNodeID(%x) = %v", o.name, A, e1) })
+					continue
+				}
+				if e2 == nil {
+					continue // accepted: not an assignment within the field widths, the property is silent
+				}
+				ok := bytes.Equal(direct, A) && eb == nil && et == nil && bytes.Equal(nb, A) && bytes.Equal(nt, A)
+				c.Check(key, ok, func() string {
+					return fmt.Sprintf("%s: SetNodeID(%x) = nil; SetNodeID(%x) = %q; now GetNodeID = %x, Marshal->Unmarshal node = %x (%v), String->FromString node = %x (%v); the node assigned was %x", o.name, A, bad, e2, direct, nb, eb, nt, et, A)
+				})
+			}
+		}
+	}
+}
